@@ -353,7 +353,11 @@ def parse_template(path, units_dir):
 
     while i < len(lines):
         ln = lines[i]
-        if ln.startswith('//@include '):
+        if ln.startswith('//@paste '):
+            # the text of a shared contract file, pasted into hand-written stand-in text (same file as the //@specfile of the proving unit)
+            buf.extend(open(os.path.join(units_dir, ln[len('//@paste '):].strip())).read().rstrip('\n').split('\n'))
+            i += 1
+        elif ln.startswith('//@include '):
             flush()
             inc = os.path.join(units_dir, ln[len('//@include '):].strip())
             parts.extend(parse_template(inc, units_dir))
